@@ -14,6 +14,7 @@ NextH ==
   \/ \E c \in Clients : L(C_Start(c), "C_Start", c) \/ L(C_Enqueue(c), "C_Enqueue", c) \/ L(C_Apply(c), "C_Apply", c)
   \/ L(W_Recv, "W_Recv", "") \/ L(W_Tick, "W_Tick", "") \/ L(W_Flush, "W_Flush", "") \/ L(W_Close, "W_Close", "") \/ L(W_Dead, "W_Dead", "")
   \/ L(A_Begin("snap"), "A_Begin", "snap") \/ L(A_Capture("snap"), "A_Capture", "snap") \/ L(S_Rename, "S_Rename", "snap")
+  \/ L(A_Fail, "A_Fail", "snap")
   \/ L(S_Truncate, "S_Truncate", "snap") \/ L(A_End("snap"), "A_End", "snap") \/ L(A_Reappend("snap"), "A_Reappend", "snap")
   \/ L(A_Begin("rw"), "A_Begin", "rw") \/ L(A_Capture("rw"), "A_Capture", "rw") \/ L(R_Replace, "R_Replace", "rw")
   \/ L(A_End("rw"), "A_End", "rw") \/ L(A_Reappend("rw"), "A_Reappend", "rw")
